@@ -411,6 +411,59 @@ func c15SmallBlocks(r vlib.Rnd) []string {
 		}
 		return blocks
 	}
+	if vlib.Chance(r, 1, 3) {
+		// resources on nested paths that share path parameters; each parameter is described by the Path directive of one
+		// of them (or by none), with values that need inline types (an `or` rule set), user types or an ENUM: which block
+		// is written first does not matter
+		paths := []string{"/s/{a}", "/s/{a}/t/{b}", "/s/{a}/t/{b}/u/{c}"}
+		params := []string{"a", "b", "c"}
+		n := 2 + r.Intn(2)
+		vals := []string{"1", "\"s\"", "1 // {or: [{type: \"integer\", min: 0}, {type: \"string\", minLength: 1}]}", "@t | @u", "\"a\" // {enum: @e}", "1 // {type: \"@t\"}", "@t"}
+		owner := make([]int, n) // which block describes parameter i (-1: none); only blocks whose path has the parameter
+		desc := make([]string, n)
+		needT, needE := false, false
+		for i := 0; i < n; i++ {
+			owner[i] = -1
+			if vlib.Chance(r, 3, 4) {
+				owner[i] = i + r.Intn(n-i)
+				desc[i] = vlib.Pick(r, vals)
+				needT = needT || strings.Contains(desc[i], "@t")
+				needE = needE || strings.Contains(desc[i], "@e")
+			}
+		}
+		var blocks []string
+		for b := 0; b < n; b++ {
+			var props []string
+			for i := 0; i <= b; i++ {
+				if owner[i] == b {
+					props = append(props, fmt.Sprintf("      \"%s\": %s", params[i], desc[i]))
+				}
+			}
+			blk := fmt.Sprintf("%s %s\n", vlib.Pick(r, []string{"GET", "PUT"}), paths[b])
+			if len(props) > 0 {
+				for k := range props {
+					if k < len(props)-1 {
+						if j := strings.Index(props[k], " //"); j >= 0 {
+							props[k] = props[k][:j] + "," + props[k][j:]
+						} else {
+							props[k] += ","
+						}
+					}
+				}
+				blk += "  Path\n    {\n" + strings.Join(props, "\n") + "\n    }\n"
+			}
+			blocks = append(blocks, blk+"  200 any\n")
+		}
+		if needT {
+			blocks = append(blocks, "TYPE @t\n  1\n\nTYPE @u\n  \"s\"\n")
+		}
+		if needE && len(blocks) < 5 {
+			blocks = append(blocks, "ENUM @e\n  [\"a\", \"b\"]\n")
+		} else if needE {
+			blocks[len(blocks)-1] += "\nENUM @e\n  [\"a\", \"b\"]\n"
+		}
+		return blocks
+	}
 	k := 1 + r.Intn(3)
 	useEnum := vlib.Chance(r, 1, 2)
 	useTag := vlib.Chance(r, 1, 3)
@@ -481,7 +534,7 @@ func c15SmallBlocks(r vlib.Rnd) []string {
 }
 
 var c15Small = &vlib.Check{
-	Prop: "C15", Name: "small-all-permutations", Quick: 60, Thorough: 4000,
+	Prop: "C15", Name: "small-all-permutations", Quick: 100, Thorough: 4000,
 	Oracle: c15Oracle,
 	Classify: func(c *vlib.Case) (bool, []string) {
 		b := vlib.Build(c.Project)
